@@ -13,6 +13,7 @@
    subsystem failures; the coroutine-level responses to failures are covered by the system model (C01-C10 traces
    with injected faults). *)
 From RV Require Import Kernel PC12.
+From RV Require Aio PAio Loop.
 From Coq Require Import Sorting.Permutation.
 
 (* for EVERY sequence of enqueues (with pairwise distinct request ids), shutdown requests, IO completions and ticks,
@@ -66,3 +67,50 @@ Example C12_replay_detects :
   kernel_mismatches [[KInit 3 1 10 1; KEnq "q1" true None; KEnq "q2" true None; KEnq "q3" true None;
                       KTick [("q1", AnswerNow); ("q2", SchedulerQueueFull)]%string false]] = [(0%nat, 4%nat, 0%Z)].
 Proof. vm_compute. reflexivity. Qed.
+
+(* ---------- the aio layer (Model/Aio.v; family `aio`: the production internal/aio driven from one goroutine with a
+   scripted subsystem behind it): dispatch, the bounded completion queue, collection of completions ---------- *)
+(* every call of the kernel thread into the aio layer returns: in particular a refused submission is completed at
+   once and is never made to wait for room in the completion queue, whose only consumer is the caller itself *)
+Theorem C12_aio_calls_return : forall size s o, snd (fst (Aio.astep size s o)) = true.
+Proof. exact PAio.astep_returns. Qed.
+Print Assumptions C12_aio_calls_return.
+
+(* for every operation sequence and every queue size: dispatched = answered + queued + in flight (as multisets),
+   hence once nothing is queued or in flight every dispatched submission has been completed exactly once *)
+Theorem C12_aio_accounting : forall size ops s answered,
+    NoDup (PAio.disp_ids ops ++ PAio.acct s answered) ->
+    let '(s', ans) := PAio.arun_all size s ops in
+    Permutation (PAio.acct s' (answered ++ ans)) (PAio.disp_ids ops ++ PAio.acct s answered).
+Proof. exact PAio.aio_accounting. Qed.
+Print Assumptions C12_aio_accounting.
+Theorem C12_aio_exactly_once : forall size ops s' ans,
+    NoDup (PAio.disp_ids ops) -> PAio.arun_all size Aio.a0 ops = (s', ans) -> Aio.a_cq s' = [] -> Aio.a_inflight s' = [] ->
+    Permutation ans (PAio.disp_ids ops).
+Proof. exact PAio.aio_exactly_once. Qed.
+Print Assumptions C12_aio_exactly_once.
+
+(* ---------- the loop as a whole (Model/Loop.v; family `loop`: the production System.Loop on its own goroutine with the
+   production api and aio, requests and the shutdown injected while the loop sits in its select or while it waits for
+   its signal goroutines) ---------- *)
+(* what is demanded of every run: one answer per request handed to the api - processed when it came before the
+   shutdown, refused after - and nothing else *)
+Fixpoint enq_ids (ops : list Loop.lop) : list nat :=
+  match ops with
+  | [] => []
+  | Loop.LEnq id :: ops' => id :: enq_ids ops'
+  | _ :: ops' => enq_ids ops'
+  end.
+Theorem C12_loop_one_answer_each : forall ops down, map fst (Loop.loop_expected down ops) = enq_ids ops.
+Proof.
+  induction ops as [|o ops IH]; intros down; [reflexivity|]. destruct o; cbn; [f_equal; apply IH|apply IH|apply IH].
+Qed.
+Print Assumptions C12_loop_one_answer_each.
+Theorem C12_loop_refused_after_shutdown : forall ops e, In e (Loop.loop_expected true ops) -> snd e = false.
+Proof.
+  induction ops as [|o ops IH]; intros e H; [contradiction|]. destruct o; cbn in H.
+  - destruct H as [<-|H]; [reflexivity|apply IH; exact H].
+  - apply IH; exact H.
+  - apply IH; exact H.
+Qed.
+Print Assumptions C12_loop_refused_after_shutdown.
